@@ -31,25 +31,26 @@ type Scenario struct {
 	Paths       int       `json:"paths"`
 	MaxLeaves   int       `json:"maxLeaves"`
 	Tag         string    `json:"tag"`
-	Reps        int       `json:"reps"` // wl: construct the list this many times from permuted/duplicated input, report distinct outcomes
-	Line        int       `json:"line"` // mode "line": index of the draw whose every value is tried while all other draws stay fixed
+	Reps        int       `json:"reps"`     // wl: construct the list this many times from permuted/duplicated input, report distinct outcomes
+	Line        int       `json:"line"`     // mode "line": index of the draw whose every value is tried while all other draws stay fixed
 	Prefault    int       `json:"prefault"` // > 0: before the cell, one more call is made whose source fails at this read (recovered): what a failed call leaves behind must not reach later calls
 }
 
 type LeafEv struct {
-	Op    string   `json:"op"`
-	D     [][2]int `json:"d"`   // [bound, index] per draw
-	Rej   int      `json:"rej"` // rejected words interleaved
-	Reads int      `json:"reads"`
-	Words int      `json:"words"`
-	Left  int      `json:"left"` // bytes pushed but never read
-	Unann int      `json:"unann"`
-	Det   int      `json:"det"` // 1 same result on the re-run with other representatives/chunking, 0 differs, -1 not re-run
-	Res   GenRes   `json:"res"`
-	PathW []int    `json:"w"`     // cell denominator / product of bounds, as limbs (filled for complete cells)
-	ND    int      `json:"nd"`    // number of draws made (D is cut after 1200 entries)
-	Trunc int      `json:"trunc"` // 1: D was cut
-	Conc  int      `json:"conc"`  // 1: a call made concurrently with others under real randomness (no draws recorded)
+	Op       string   `json:"op"`
+	D        [][2]int `json:"d"`   // [bound, index] per draw
+	Rej      int      `json:"rej"` // rejected words interleaved
+	Reads    int      `json:"reads"`
+	Words    int      `json:"words"`
+	Left     int      `json:"left"` // bytes pushed but never read
+	Unann    int      `json:"unann"`
+	Det      int      `json:"det"` // 1 same result on the re-run with other representatives/chunking, 0 differs, -1 not re-run
+	Res      GenRes   `json:"res"`
+	PathW    []int    `json:"w"`     // cell denominator / product of bounds, as limbs (filled for complete cells)
+	ND       int      `json:"nd"`    // number of draws made (D is cut after 1200 entries)
+	Trunc    int      `json:"trunc"` // 1: D was cut
+	Conc     int      `json:"conc"`  // 1: a call made concurrently with others under real randomness (no draws recorded)
+	PathProd []int    `json:"pp"`    // product of the bounds of ALL draws of this run, as limbs: the run's own probability is 1/pp
 }
 
 type CellEv struct {
@@ -193,6 +194,7 @@ func charCellEvents(id int, sc Scenario, seed int64, rp *spg.CharRecipe) (events
 			prod.Mul(prod, big.NewInt(int64(d.N)))
 		}
 		ev.ND = len(ev.D)
+		ev.PathProd = Limbs(prod)
 		if len(ev.D) > 1200 {
 			ev.D, ev.Trunc = ev.D[:1200], 1
 		}
